@@ -9,7 +9,8 @@
 //         Q ac <dst> <idev> <delay> (SendIsoAddressClaim) | Q pi <idev> (SendProductInformation) | Q ci <idev> (SendConfigurationInformation)
 //         Q tx|rx <dst> <idev> <tp> (SendTxPGNList / SendRxPGNList) | Q hb <force> (SendHeartbeat(bool)) | Q hd <idev> (SendHeartbeat(int))
 //         Q hi <interval> <idev> (deprecated SetHeartbeatInterval) | I <idev> <lower> <upper> <system> (SetDeviceInformationInstances)
-//         D <idev> <unique> <function> <class> <manufacturer> <industry> (SetDeviceInformation) | X (Restart)
+//         D <idev> <unique> <function> <class> <manufacturer> <industry> (SetDeviceInformation) | X (Restart) | M <mode> <source> (SetMode after initialisation)
+//         L <which 0..3> <p,p,..|-> (Set/ExtendSingleFrameMessages, Set/ExtendFastPacketMessages at run time)
 // Output: for every op its events (tx:<id>:<len>:<data>:<accepted> res:<0/1> dlv:... note:...) separated by " ; ", then " | " and a
 // dump of internal state (read through -fno-access-control).
 // Unless cold=1 the node is opened and has finished address claiming before the ops start (prelude with an accepting driver).
@@ -262,6 +263,12 @@ static void run_case(const std::string &line) {
       else if (t[0] == "I" && t.size() >= 5) n->SetDeviceInformationInstances((uint8_t)tounum(t[2]), (uint8_t)tounum(t[3]), (uint8_t)tounum(t[4]), atoi(t[1].c_str()));
       else if (t[0] == "D" && t.size() >= 7) n->SetDeviceInformation((unsigned long)tounum(t[2]), (unsigned char)tounum(t[3]), (unsigned char)tounum(t[4]), (uint16_t)tounum(t[5]), (unsigned char)tounum(t[6]), atoi(t[1].c_str()));
       else if (t[0] == "X") n->Restart();
+      else if (t[0] == "L" && t.size() >= 3) {          // PGN list setters at run time; the list lives as long as the node
+        int which = atoi(t[1].c_str()); const unsigned long *l = plist(t[2] == "-" ? std::string("") : t[2])->data();
+        if (which == 0) n->SetSingleFrameMessages(l); else if (which == 1) n->ExtendSingleFrameMessages(l);
+        else if (which == 2) n->SetFastPacketMessages(l); else if (which == 3) n->ExtendFastPacketMessages(l);
+      }
+      else if (t[0] == "M" && t.size() >= 3) n->SetMode((tNMEA2000::tN2kMode)atoi(t[1].c_str()), (uint8_t)tounum(t[2]));
       else if (t[0] == "H" && t.size() >= 3) n->SetHeartbeatIntervalAndOffset((uint32_t)tounum(t[1]), (uint32_t)tounum(t[2]), t.size() > 3 ? atoi(t[3].c_str()) : -1);
       else if (t[0] == "R" && t.size() >= 4) {
         RxFrame f; f.id = strtoul(t[1].c_str(), 0, 16); f.len = (unsigned char)atoi(t[2].c_str());
